@@ -1021,6 +1021,103 @@ def nrm2(p, res, rule="NRM-2"):
     return n
 
 
+def wr9(p, res, rule="WR-9", restrict=None):
+    """in-place limb-wise loops `for j in lo..hi { kernel_assign(res.at_mut(c, j + r), a.at(c', j + s)) }`: the loop runs over the whole overlap of the two index windows,
+        hi - lo == max(min(size(res) - r - lo, size(a) - s - lo), 0)
+    for every size and offset (piecewise-linear identity over the extracted trip count and accessor indices).  Fewer iterations drop limbs of the operand that the result can
+    hold (the sum is truncated short of the result's precision); more iterations index past an operand."""
+    import random
+    from . import pwl
+    n = 0
+    for f in sorted(p.lib_fns(), key=lambda x: x.uid):
+        if f.kind == "Closure" or not f.blocks or not f.uid.startswith("poulpy_cpu_ref::reference") or (restrict and not restrict(f)):
+            continue
+        g = CFG(f)
+        loops = g.loops()
+        if not loops:
+            continue
+        flow = Flow(f, transparent=("deref", "deref_mut", "borrow", "borrow_mut", "as_mut", "as_ref", "to_ref", "to_mut"))
+        plain = Flow(f)
+        sym = None
+        k = 0
+        for L in loops:
+            ks = []
+            for bi in sorted(L["body"]):
+                t = f.blocks[bi]["t"]
+                if t and t["k"] == "Call" and g.innermost_loop(bi) is L:
+                    nm = (f.callee_def(t) or {}).get("n", "")
+                    if nm.endswith("_assign") and len(t["a"]) == 2:
+                        ks.append((bi, t, nm))
+            if len(ks) != 1:
+                continue
+            bi, t, nm = ks[0]
+            if sym is None:
+                sym = Sym(f, plain)
+            acc = []
+            for a in t["a"]:
+                rr = [r for r in plain.op_roots(a) if r[0] == "call"]
+                if len(rr) != 1:
+                    acc = None
+                    break
+                t2 = f.blocks[rr[0][1]]["t"]
+                an = (f.callee_def(t2) or {}).get("n", "")
+                if not (an in ("at", "at_mut") or an.startswith("limb_")) or len(t2["a"]) != 3:
+                    acc = None
+                    break
+                objs = {r[1] for r in flow.op_roots(t2["a"][0]) if r[0] == "param"}
+                if len(objs) != 1:
+                    acc = None
+                    break
+                acc.append((list(objs)[0], sym.operand(t2["a"][2])))
+            if not acc or acc[0][0] == acc[1][0]:
+                continue
+            rb = nb = None
+            for b2 in sorted(L["body"]):
+                t2 = f.blocks[b2]["t"]
+                if t2 and t2["k"] == "Call" and (f.callee_def(t2) or {}).get("n") == "next" and g.innermost_loop(b2) is L:
+                    rb = _range_bounds(f, plain, sym, t2)
+                    nb = b2
+            if rb is None:
+                continue
+            J = ("call", f.uid, nb, ("0",))
+            if not all(any(a == J for a in pl.atoms()) for _, pl in acc):
+                continue            # an operand addressed at a fixed limb (scalar-vector products): not a window overlap
+            k += 1
+            n += 1
+            jkey = repr(J)
+            sizes = [Poly.atom(("f", "size", (Poly.atom(("p", o, ())).key(),))) for o, _ in acc]
+            bad = None
+            pts = 0
+            rnd = random.Random(99)
+            for i in range(2500):
+                r = random.Random(rnd.random())
+                span = (3, 6, 9)[i % 3]
+                j0 = r.randint(0, 3)
+                ev = pwl.Eval(p, {"__fresh__": (lambda kk, r=r, span=span, j0=j0: j0 if kk == jkey else r.randint(0, span))})
+                ev.syms[f.uid] = sym
+                try:
+                    lo, hi = ev.poly(rb[0]), ev.poly(rb[1])
+                    offs = [ev.poly(pl) - j0 for _, pl in acc]
+                    szs = [ev.poly(sz) for sz in sizes]
+                except pwl.ErrPath:
+                    continue
+                pts += 1
+                want = max(min(szs[0] - offs[0] - lo, szs[1] - offs[1] - lo), 0)
+                if max(hi - lo, 0) != want and bad is None:
+                    bad = {"trip_count": max(hi - lo, 0), "overlap": want, "sizes": szs, "offsets": offs, "lo": lo}
+            pn = f.param_names()
+            if bad:
+                res.bad(rule, f.pretty, "%s#%d:overlap" % (nm, k),
+                        "%s: the loop around `%s` runs %d time(s) where the limb windows of `%s` (%d limbs, offset %d) and `%s` (%d limbs, offset %d) overlap on %d limb(s)"
+                        % (f.pretty, nm, bad["trip_count"], pn.get(acc[0][0]), bad["sizes"][0], bad["offsets"][0], pn.get(acc[1][0]), bad["sizes"][1], bad["offsets"][1], bad["overlap"]),
+                        site=f.where(t["l"]), detail=bad)
+            elif pts >= 300:
+                res.ok(rule, {"fn": f.pretty, "kernel": nm, "trip": "%r..%r" % (rb[0], rb[1])})
+            else:
+                res.undec(rule, "%s: too few admissible points" % f.pretty)
+    return n
+
+
 def _inline_carry_closures(p, f, g):
     """blocks of f, inside a loop, that build a closure applying get_carry (the inline form of a carry-only pass: `carry.iter_mut().for_each(|c| ..get_carry..)`)"""
     out = []
